@@ -25,5 +25,8 @@ MassiveCalls == {C("output", "md", <<"massive">>, "tab", "none"), C("output", "m
 LongCalls == {C("mkdir", "md", <<"massive">>, "long", "none"), C("mkdir", "md", <<>>, "long", "none"), C("verify", "md", <<>>, "long", "none")}
 \* two documents rejected with a format error, each naming its own row
 FmtCalls == {C("output", "md", <<>>, "fmt1", "none"), C("output", "md", <<"massive">>, "fmt2", "none")}
-AllCalls == LongCalls \cup FmtCalls \cup TextCalls \cup EncCalls \cup DryCalls \cup WalkCalls \cup MkdirCalls \cup VerifyCalls \cup MassiveCalls
+\* a tree rooted at "." (valid: the target directory itself) and a tree with a "." below its root (invalid): what a
+\* name is worth depends on where it stands, not on which tree was looked at first
+DotCalls == {C("output", "root", <<"dry">>, "dotroot", "none"), C("output", "root", <<"dry">>, "dotchild", "none")}
+AllCalls == DotCalls \cup LongCalls \cup FmtCalls \cup TextCalls \cup EncCalls \cup DryCalls \cup WalkCalls \cup MkdirCalls \cup VerifyCalls \cup MassiveCalls
 =============================================================================
